@@ -7,7 +7,9 @@ Case kinds (field 'kind'):
   raw     an arbitrary string parsed through `via` (query | forms | direct | params with a body)
   seq     ONE request with a query string and an urlencoded body ('qpairs'/'bpairs' encoded with urlencode, or
           raw 'qs'/'body'); query / forms / params are read in the generated 'order' (with repeats) and every
-          read is observed; the oracle also reads each accessor on a fresh request
+          read is observed; the oracle also reads each accessor on a fresh request.  With 'ops' instead of
+          'order' the operations also REPLACE the query string (request['QUERY_STRING'] = ...) and the body
+          (request['wsgi.input'] = BytesIO(...), request['CONTENT_LENGTH'] = ...) between reads
   frame   END TO END: the urlencoded body ('pairs' encoded with urlencode, or raw 'text') travels through a
           fragmenting wsgi.input (props.common.FragStream, schedule 'sched') under Content-Length or chunked
           framing ('data' = the bytes on the wire), with max_memfile_size 'buf' / max_body_size 'maxb' around
@@ -35,15 +37,17 @@ RULE = ('cases = corpus + random: (a) round trips: 0..6 pairs over an alphabet r
         'under Content-Length and chunked framing (random legal chunkings, extensions, trailers, bytes behind the '
         'body) with max_memfile_size / max_body_size at size-1, size, size+1, via Ombott.__call__ and a handler '
         'reading request.forms; (a2) ONE request with query string and urlencoded body (keys shared between both sides), '
-        'query/forms/params read in a generated order with repeats, every read observed and compared with the '
-        'grouping/merge and with a fresh request; (c) primitives: utf8 encode / strict decode / replace decode on boundary code points and '
+        'query/forms/params read in a generated order with repeats, and in the "ops" form interleaved with '
+        'replacements of the query string (request["QUERY_STRING"] = ...) and of the body (request["wsgi.input"], '
+        'request["CONTENT_LENGTH"] in either order); every read observed and compared with the grouping/merge of '
+        'what the request carries at that moment and with a fresh request carrying it; (c) primitives: utf8 encode / strict decode / replace decode on boundary code points and '
         'malformed byte strings, quote / quote_plus / unquote / unquote_to_bytes / urlencode. thorough adds every '
         'raw string of length <= 5 over "a=&+%4" through parse_qsl and Request.query, and every byte string of length <= 3 '
         '(<= 4 behind a 4-byte lead) over the 19 boundary bytes of the UTF-8 decoder (exhaustive). '
         'non-trivial = round trip with >= 2 pairs containing a repeated key or a character outside [A-Za-z0-9], '
         'or raw string containing "%" or at least two separators, or a framed body of >= 2 bytes that is chunked or '
         'read under a fragmentation schedule, or a read sequence on a request with both parts '
-        'in which query or forms is read after params, or a primitive case with a non-ASCII/malformed '
+        'in which query or forms is read after params, or an op sequence with a read before and after a replacement, or a primitive case with a non-ASCII/malformed '
         'input; distinct by the full input')
 TRUSTED = ['modelled, not verified: CPython urllib.parse.unquote / _unquote_impl and the UTF-8 codec with '
            'errors="strict"/"replace" (coq/lib/Pct.v, coq/lib/Utf8.v: re-implemented by hand following '
@@ -158,6 +162,20 @@ def frame_corpus():
     return out
 
 
+def seq_ops(qpairs, bpairs, ops, spelling='plus'):
+    """ops: ('read', a) | ('set_qs', pairs) | ('set_body', pairs[, cl_first])"""
+    conv = lambda ps: [[S(k), S(v)] for k, v in ps]
+    out = []
+    for o in ops:
+        if o[0] == 'read':
+            out.append(['read', o[1]])
+        elif o[0] == 'set_qs':
+            out.append(['set_qs', S(pairs_text(conv(o[1]), spelling).decode('ascii')), conv(o[1])])
+        else:
+            out.append(['set_body', list(pairs_text(conv(o[1]), spelling)), conv(o[1]), int(bool(o[2:] and o[2]))])
+    return dict(kind='seq', qpairs=conv(qpairs), bpairs=conv(bpairs), spelling=spelling, ops=out)
+
+
 ORDERS = [['params', 'query'], ['query', 'params', 'query'], ['forms', 'params', 'query', 'forms'],
           ['params', 'forms', 'query', 'params'], ['query', 'forms', 'params'], ['params', 'params', 'query', 'forms']]
 
@@ -187,6 +205,22 @@ def corpus():
             ['forms', 'params', 'query', 'forms']),
         seq([('a', '1')], [('b', '2')], ['query', 'params', 'query'], 'quote'),
         dict(kind='seq', qs=S('a=1&=x&a=%e9'), body=S('a=2&b&%zz'), order=['params', 'query', 'forms', 'params']),
+        # the query string / body are replaced between reads (seeded edit: query cached under a slot that
+        # _on_env_changed does not clear; F34: CONTENT_LENGTH did not drop the cached content_length)
+        seq_ops([('lang', 'en'), ('tag', 'x'), ('tag', 'y+z')], [('name', 'Jürgen & co'), ('page', 'f')],
+                [('read', 'query'), ('set_qs', [('q', '100% café'), ('tag', 'only')]), ('read', 'query'),
+                 ('read', 'params')]),
+        seq_ops([('a', '1')], [('x', '1')],
+                [('read', 'params'), ('set_qs', [('b', '2')]), ('read', 'params'), ('read', 'query')], 'quote'),
+        seq_ops([('a', '1')], [('x', '1')],
+                [('read', 'forms'), ('set_body', [('yy', '22'), ('z', '3')]), ('read', 'forms'), ('read', 'params')]),
+        seq_ops([('a', '1')], [('x', '1'), ('x', '2')],
+                [('read', 'params'), ('set_body', [('y', '2')], 1), ('read', 'params'), ('read', 'forms'),
+                 ('set_qs', []), ('read', 'query'), ('read', 'params')]),
+        seq_ops([('a', '1')], [('x', '1')], [('set_qs', [('b', '2')]), ('set_body', [('y', '2')]), ('read', 'params')]),
+        dict(kind='seq', qs=S('a=%e9&&=v'), body=S('b=1'),
+             ops=[['read', 'query'], ['set_qs', S('%zz=1&a'), None], ['read', 'query'], ['read', 'params'],
+                  ['set_body', S('c==2&%'), None, 0], ['read', 'forms'], ['read', 'params']]),
         rt([], 'plus', 'query'), rt([('a', '')], 'plus', 'direct'),
     ] + frame_corpus()[:8] + [ rt([('a', ''), ('a', '')], 'quote', 'query'),
         rt([(' ', ' '), ('+', '+'), ('%', '%'), ('&', '&'), ('=', '=')], 'plus', 'query'),
@@ -281,6 +315,40 @@ def rand_bytes(rng):
     return out
 
 
+def gen_seq_ops(rng):
+    spelling = rng.choice(['plus', 'quote'])
+    by_pairs = rng.random() < 0.75
+    pool = [rand_text(rng, 1, 3) for _ in range(rng.randrange(1, 4))]
+
+    def some_pairs():
+        return [[list(rng.choice(pool)), rand_text(rng, 0, 4)] for _ in range(rng.randrange(0, 4))]
+
+    def new_qs():
+        if by_pairs:
+            ps = some_pairs()
+            return S(pairs_text(ps, spelling).decode('ascii')), ps
+        return rand_raw(rng), None
+
+    def new_body():
+        if by_pairs:
+            ps = some_pairs()
+            return list(pairs_text(ps, spelling)), ps
+        return [x for x in rand_raw(rng) if x < 256], None
+    ops = []
+    for _ in range(rng.randrange(3, 9)):
+        r = rng.random()
+        if r < 0.6:
+            ops.append(['read', rng.choice(['query', 'forms', 'params', 'params'])])
+        elif r < 0.8:
+            ops.append(['set_qs'] + list(new_qs()))
+        else:
+            ops.append(['set_body'] + list(new_body()) + [rng.randrange(2)])
+    ops.append(['read', rng.choice(['query', 'forms', 'params'])])
+    if by_pairs:
+        return dict(kind='seq', spelling=spelling, qpairs=some_pairs(), bpairs=some_pairs(), ops=ops)
+    return dict(kind='seq', qs=rand_raw(rng), body=[x for x in rand_raw(rng) if x < 256], ops=ops)
+
+
 def gen(rng, n):
     for _ in range(n):
         r = rng.random()
@@ -308,7 +376,9 @@ def gen(rng, n):
         elif r < 0.2:
             order = list(rng.choice(ORDERS)) if rng.random() < 0.5 else \
                 [rng.choice(['query', 'forms', 'params']) for _ in range(rng.randrange(2, 6))]
-            if rng.random() < 0.75:
+            if rng.random() < 0.6:
+                yield gen_seq_ops(rng)
+            elif rng.random() < 0.75:
                 pool = [rand_text(rng, 1, 3) for _ in range(rng.randrange(1, 4))]     # shared keys on both sides
                 yield dict(kind='seq', spelling=rng.choice(['plus', 'quote']), order=order,
                            qpairs=[[list(rng.choice(pool)), rand_text(rng, 0, 4)] for _ in range(rng.randrange(0, 5))],
@@ -464,7 +534,38 @@ def seq_request(qs, body):
     return Request(env)
 
 
+def fresh_read(qs, body, a):
+    return dump_dict(getattr(seq_request(qs, body), a))
+
+
+def run_seq_ops(case):
+    qs, body = seq_strings(case)
+    reads, fresh = [], []
+    try:
+        rq = seq_request(qs, body)
+        for o in case['ops']:
+            if o[0] == 'read':
+                reads.append([o[1], dump_dict(getattr(rq, o[1]))])
+                fresh.append(fresh_read(qs, body, o[1]))         # a request that carries the current strings
+            elif o[0] == 'set_qs':
+                qs = T(o[1])
+                rq['QUERY_STRING'] = qs
+            else:
+                body = bytes(o[1])
+                if o[3]:
+                    rq['CONTENT_LENGTH'] = str(len(body))
+                    rq['wsgi.input'] = io.BytesIO(body)
+                else:
+                    rq['wsgi.input'] = io.BytesIO(body)
+                    rq['CONTENT_LENGTH'] = str(len(body))
+    except Exception as e:
+        return dict(status='raised', exc=type(e).__name__)
+    return dict(status='ok', reads=reads, fresh=fresh)
+
+
 def run_seq(case):
+    if 'ops' in case:
+        return run_seq_ops(case)
     qs, body = seq_strings(case)
     try:
         rq = seq_request(qs, body)
@@ -552,6 +653,14 @@ def encode(case):
     if case['kind'] == 'frame':
         return ([5, case['cl'], 1 if case['chunked'] else 0, case['buf'], 0 if case['maxb'] is None else 1,
                  case['maxb'] or 0] + enc_str(case['data']) + enc_list(case['sched'], lambda k: [k]))
+    if case['kind'] == 'seq' and 'ops' in case:
+        qs, body = seq_strings(case)
+
+        def enc_op(o):
+            if o[0] == 'read':
+                return [0, KIND_CODE[o[1]]]
+            return [1 if o[0] == 'set_qs' else 2] + enc_str(o[1])
+        return [6] + enc_str(S(qs)) + enc_str(body) + enc_list(case['ops'], enc_op)
     if case['kind'] == 'seq':
         qs, body = seq_strings(case)
         return [4] + enc_str(S(qs)) + enc_str(body) + enc_list(case['order'], lambda a: [KIND_CODE[a]])
@@ -585,7 +694,8 @@ def decode(out, case):
         def one(q):
             tag = q.int()
             return q.list(item) if tag == 0 else 'model_tag_%d' % tag
-        return dict(status='ok', reads=[[a, d] for a, d in zip(case['order'], r.list(one))])
+        names = [o[1] for o in case['ops'] if o[0] == 'read'] if 'ops' in case else case['order']
+        return dict(status='ok', reads=[[a, d] for a, d in zip(names, r.list(one))])
     tag = r.int()
     if tag != 0:
         return dict(status='model_tag_%d' % tag)
@@ -708,7 +818,37 @@ def oracle_frame(case, obs):
     return None
 
 
+def oracle_seq_ops(case, obs):
+    qp, bp = case.get('qpairs'), case.get('bpairs')       # the pairs the request carries at this moment (None: raw)
+    n = 0
+    history = []
+    for o in case['ops']:
+        if o[0] == 'set_qs':
+            qp = o[2]
+            history.append('set_qs')
+        elif o[0] == 'set_body':
+            bp = o[2]
+            history.append('set_body')
+        else:
+            a, got = obs['reads'][n]
+            want = obs['fresh'][n]
+            if qp is not None and bp is not None:
+                q = [(T(k), T(v)) for k, v in qp]
+                b = [(T(k), T(v)) for k, v in bp]
+                if all(k for k, _ in q + b):
+                    want = group(q) if a == 'query' else group(b) if a == 'forms' else merge(group(q), group(b))
+            if got != want:
+                return ('read #%d (%s) after %s returned %s, expected %s: the read does not decode what the '
+                        'request carries at that moment' % (n + 1, a, '/'.join(history) or 'nothing', short(got),
+                                                            short(want)))
+            n += 1
+            history.append(a)
+    return None
+
+
 def oracle_seq(case, obs):
+    if 'ops' in case:
+        return oracle_seq_ops(case, obs)
     want = dict(obs['fresh'])          # what each accessor returns on a request of its own
     if 'qpairs' in case:
         qp = [(T(k), T(v)) for k, v in case['qpairs']]
@@ -738,6 +878,10 @@ def nontrivial(case, obs):
         return 37 in q or sum(1 for c in q if c in (38, 61)) >= 2
     if case['kind'] == 'frame':
         return len(case['text']) >= 2 and (bool(case['sched']) or case['chunked'])
+    if case['kind'] == 'seq' and 'ops' in case:
+        kinds = [o[0] for o in case['ops']]
+        first_set = min([i for i, k in enumerate(kinds) if k != 'read'], default=None)
+        return first_set is not None and 'read' in kinds[:first_set] and 'read' in kinds[first_set:]
     if case['kind'] == 'seq':
         o = case['order']
         later = any(a in ('query', 'forms') and 'params' in o[:i] for i, a in enumerate(o))
@@ -769,6 +913,10 @@ def classify(case, obs):
         if 'qpairs' in case:
             shared = 'shared-key' if {tuple(k) for k, _ in case['qpairs']} & {tuple(k) for k, _ in case['bpairs']} \
                 else 'disjoint'
+        if 'ops' in case:
+            ks = {o[0] for o in case['ops']}
+            return 'seq-ops/%s/%s/%s' % ('pairs' if 'qpairs' in case else 'raw',
+                                         '+'.join(sorted(ks - {'read'})) or 'reads-only', obs.get('status'))
         return 'seq/%s/%s/%s' % ('pairs' if 'qpairs' in case else 'raw', shared, obs.get('status'))
     q = case['qs']
     return 'raw/%s/%s/%s' % (case['via'], 'pct' if 37 in q else 'nopct', obs.get('status'))
@@ -794,10 +942,19 @@ def shrink(case):
         if s:
             yield dict(case, sched=[])
     elif case['kind'] == 'seq':
-        o = case['order']
+        o = case.get('ops') or case['order']
+        f = 'ops' if 'ops' in case else 'order'
         for i in range(len(o)):
             if len(o) > 1:
-                yield dict(case, order=o[:i] + o[i + 1:])
+                yield dict(case, **{f: o[:i] + o[i + 1:]})
+        if 'ops' in case and 'qpairs' in case:
+            for i, op in enumerate(o):
+                if op[0] != 'read':
+                    for j in range(len(op[2])):
+                        ps = op[2][:j] + op[2][j + 1:]
+                        txt = pairs_text(ps, case['spelling'])
+                        new = [op[0], S(txt.decode('ascii')) if op[0] == 'set_qs' else list(txt), ps] + op[3:]
+                        yield dict(case, ops=o[:i] + [new] + o[i + 1:])
         for f in ('qpairs', 'bpairs', 'qs', 'body'):
             x = case.get(f)
             for i in range(len(x or [])):
@@ -816,7 +973,26 @@ def shrink(case):
             yield dict(case, arg=a[:i] + a[i + 1:])
 
 
-PREDICATES = {}
+def pred_body_replaced_after_read(case, what, m):
+    """F34: a body of another length is installed after forms/params were read (content_length is cached at
+    the first such read) and forms/params are read again"""
+    if case.get('kind') != 'seq' or 'ops' not in case:
+        return False
+    cur = len(seq_strings(case)[1])
+    cached = None
+    stale = False
+    for o in case['ops']:
+        if o[0] == 'set_body':
+            cur = len(o[1])
+        elif o[0] == 'read' and o[1] in ('forms', 'params'):
+            if cached is None:
+                cached = cur
+            elif cur != cached:
+                stale = True
+    return stale
+
+
+PREDICATES = {'body_replaced_after_read': pred_body_replaced_after_read}
 
 MANIFEST = dict(
     text=('Proof: coq/props/C18.v, 12 theorems, all closed under the global context. C18_roundtrip: for ALL lists of '
@@ -837,7 +1013,8 @@ MANIFEST = dict(
           'Content-Length / chunked readers and the size limits (models of C04/C05/C13): through every fragmentation and '
           'legal chunking forms = group(pairs) when the body fits max_memfile_size, 413 otherwise, tied by an end-to-end '
           'correspondence through Ombott.__call__ (C18_access_order_independent: no read depends '
-          'on what was read before), and an independent oracle (10-line '
+          'on what was read before; C18_reads_follow_updates: after request[key] = value replaced the query string '
+          'or the body, every read decodes what the request carries at that moment), and an independent oracle (10-line '
           'grouping) finds the concrete failing input when a tie breaks.'),
     note=('Trusted: Coq kernel + vm_compute; extraction (ExtrOcamlBasic only); the Python harness; that the '
           'hand-written models of urllib.parse.unquote/quote/urlencode and of the UTF-8 codec (errors=strict/replace) '
